@@ -358,10 +358,19 @@ func (c c18) foreignSuites(w *world.World, res *core.Result) {
 	if err != nil {
 		return
 	}
-	for _, ids := range [][2]byte{{2, 1}, {3, 1}, {1, 2}, {1, 3}, {3, 3}} {
+	for vi, ids := range [][2]byte{{2, 1}, {3, 1}, {1, 2}, {1, 3}, {3, 3}, {1, 1}, {1, 1}} {
 		published := append([]byte(nil), is.NameKeyBytes...)
 		published[len(published)-3], published[len(published)-1] = ids[0], ids[1]
-		nk, err := type3.UnmarshalEncapKey(published)
+		buf := append([]byte(nil), published...)
+		if vi == 5 {
+			buf = append(buf, 0xAA, 0xBB, 0xCC) // the directory response carries more bytes after the key
+		}
+		nk, err := type3.UnmarshalEncapKey(buf)
+		if vi == 6 {
+			for i := range buf {
+				buf[i] = 0xEE // the receive buffer is reused after decoding
+			}
+		}
 		res.Evals++
 		if err != nil {
 			res.Probe("EncapKey with other registered KDF/AEAD ids refused by the decoder")
